@@ -593,7 +593,9 @@ func runWorker(exe string, c *Check, tier string, k, n int, seed int64, budget t
 	if replayIx >= 0 {
 		args = append(args, strconv.FormatInt(replayIx, 10))
 	}
-	cmd := exec.Command(exe, args...)
+	// address-space limit: an input that makes the code under test allocate without bound
+	// (the sandbox has no memory limit of its own) ends this worker, not the machine
+	cmd := exec.Command("/bin/sh", append([]string{"-c", `ulimit -v 8388608 2>/dev/null; exec "$0" "$@"`, exe}, args...)...)
 	var stderr bytes.Buffer
 	cmd.Stderr = &tailWriter{buf: &stderr, max: 64 << 10}
 	cmd.Stdout = os.Stderr
